@@ -61,6 +61,7 @@ structure Config where
   requestTimeout : Bool := false         -- searches.send.request_timeout > 0
   wishlist : Nat := 0                    -- enabled wishlist entries
   scanOnStart : Bool := true             -- shares.scan_on_start
+  race : Bool := false                   -- network.peer.connect_mode = race (else fallback)
   slowScan : Bool := false               -- scenario: the executor does not finish the scan
   clearPort : Nat := 0                   -- network.listening.port (0 = none)
   obfPort : Nat := 0                     -- network.listening.obfuscated_port
@@ -211,9 +212,11 @@ inductive Path
   /-- the site is the generic body of `BackgroundTask.start` / `Timer.start`; its tasks are those of the
       `BackgroundTask(` / `Timer(` sites -/
   | mechanism
-  /-- child of `_create_peer_connection_race`, awaited inline by its creator and holding no handle of its own: it is
-      orphaned when the creator is cancelled while waiting (fix proposed under C11) -/
-  | raceChild
+  /-- child of `_create_peer_connection_race`: it holds no handle of its own and is awaited inline by its creator
+      (the coroutine `create_peer_connection` running in a task of one of the sites `creators`); it ends when the
+      creator is cancelled: the `except asyncio.CancelledError` handler around the wait must cancel the children
+      that are still pending, wait for them and re-raise (`links`), and every creator site must be covered -/
+  | raceChild (creators : List String) (links : List (String × String))
   deriving Repr
 
 private def stopLinks : List (String × String) :=
@@ -224,6 +227,21 @@ private def connLinks : List (String × String) :=
   netLinks ++ [("network/network.py|Network.disconnect", "call:connections[*].disconnect")]
 private def cancelAllLinks : List (String × String) :=
   netLinks ++ [("network/network.py|Network.disconnect", "call:self._cancel_all_tasks")]
+
+/-- what `_create_peer_connection_race` does when it is itself cancelled (network.py, `except
+    asyncio.CancelledError` around `asyncio.wait`) -/
+private def raceLinks : List (String × String) :=
+  [("network/network.py|Network._create_peer_connection_race", "oncancel:cancel:{direct_task, indirect_task}[*]"),
+   ("network/network.py|Network._create_peer_connection_race", "oncancel:gather:{direct_task, indirect_task}"),
+   ("network/network.py|Network._create_peer_connection_race", "oncancel:reraise"),
+   -- a cancelled direct attempt closes the connection nobody will own
+   ("network/network.py|Network._make_direct_connection", "oncancel:call:PeerConnection().disconnect"),
+   ("network/network.py|Network._make_direct_connection", "oncancel:reraise")]
+
+/-- the library tasks in which `create_peer_connection` runs (distributed.py `_on_potential_parents`;
+    `send_peer_messages` in search/manager.py `_query_shares_and_reply` and in the transfer tasks) -/
+private def creatorKeys : List String :=
+  ["potentialParent", "searchReply", "queueRemotely", "initUpload", "initDownload"]
 
 def Site.path : Site → Path
   | .sharesScan => .chain none [("client.py|SoulSeekClient.stop", "cancel:self._scan_task")]
@@ -242,8 +260,8 @@ def Site.path : Site → Path
       [("network/network.py|Network._cancel_all_tasks", "cancel:self._upnp_task")])
   | .watchdog => .chain none (cancelAllLinks ++
       [("network/network.py|Network._cancel_all_tasks", "cancel:self._connection_watchdog_task")])
-  | .directConnect => .raceChild
-  | .indirectConnect => .raceChild
+  | .directConnect => .raceChild creatorKeys raceLinks
+  | .indirectConnect => .raceChild creatorKeys raceLinks
   | .connectToPeer => .chain none (cancelAllLinks ++
       [("network/network.py|Network._cancel_all_tasks", "cancel:self._create_peer_connection_tasks[*]")])
   | .wishlist => .chain (some "searches") (stopLinks ++
@@ -288,9 +306,23 @@ def Path.present : Path → Bool
       (match svc with | none => true | some s => TaskSites.services.contains s) &&
       links.all (fun l => TaskSites.effects.contains l)
   | .mechanism => true
-  | .raceChild => false
+  | .raceChild _ links => links.all (fun l => TaskSites.effects.contains l)
 
-def covered (k : Site) : Bool := k.path.present
+/-- short names of the sites a `raceChild` path refers to -/
+def Site.ofName : String → Option Site
+  | "potentialParent" => some .potentialParent
+  | "searchReply" => some .searchReply
+  | "queueRemotely" => some .queueRemotely
+  | "initUpload" => some .initUpload
+  | "initDownload" => some .initDownload
+  | _ => none
+
+def covered (k : Site) : Bool :=
+  k.path.present &&
+  (match k.path with
+   | .raceChild creators _ =>
+       creators.all (fun n => match Site.ofName n with | some s => s.path.present | none => false)
+   | _ => true)
 
 /-! ## session state machine -/
 
@@ -329,6 +361,8 @@ structure State where
   searchTimers : Nat := 0
   wishlistTimers : Nat := 0
   pp : List Nat := []              -- potential-parent connect tasks: ticks left
+  sr : List Nat := []              -- search-reply tasks connecting to the asker: ticks left
+  orphans : List Nat := []         -- race children whose creator was cancelled without ending them: ticks left
   -- server-derived state
   users : Bool := false            -- some user object / privileged user is stored
   rooms : Bool := false
@@ -363,6 +397,7 @@ inductive Op
   | search
   | wishlistInterval               -- the server sends WishlistInterval
   | potentialParents               -- the server sends PotentialParents with one unreachable entry
+  | searchRequest                  -- the server relays a search of an unreachable user that matches a shared file
   | loss (r : Reason)
   | tick
   | setSrvUp (b : Bool)
@@ -372,8 +407,12 @@ inductive Op
 
 /-- ticks of the reconnect delay (`reconnect.timeout` = 10 s) -/
 def reconnectTicks : Nat := 20
-/-- life of a potential-parent connect in fallback mode: 10 s direct timeout + 60 s indirect timeout -/
-def ppTicks : Nat := 140
+/-- ticks of the direct connect timeout (PEER_CONNECT_TIMEOUT = 10 s) -/
+def directTicks : Nat := 20
+/-- ticks of the indirect connect timeout (PEER_INDIRECT_CONNECT_TIMEOUT = 60 s) -/
+def indirectTicks : Nat := 120
+/-- life of a connect to an unreachable peer: fallback = direct timeout, then indirect timeout; race = both at once -/
+def connectTicks (c : Config) : Nat := if c.race then indirectTicks else directTicks + indirectTicks
 
 def envOf (c : Config) (_st : State) : Env :=
   { clearPort := if c.clearPort ≠ 0 ∧ ¬ c.clearBindFails then c.clearPort else 0
@@ -446,6 +485,10 @@ def typicalResidual (c : Config) (j : Nat) : List String :=
 
 def agePP (l : List Nat) : List Nat := (l.filter (fun n => n > 1)).map (fun n => n - 1)
 
+/-- half a second passes for every pending connect attempt -/
+def ageAll (st : State) : State :=
+  { st with pp := agePP st.pp, sr := agePP st.sr, orphans := agePP st.orphans }
+
 /-- one watchdog job run that finds the reconnect delay elapsed (network.py:396-403, client.py:376-379) -/
 def reconnect (c : Config) (st : State) : State × List Obs :=
   if st.srvUp then
@@ -484,7 +527,7 @@ def doStart (c : Config) (st : State) : State × List Obs :=
         (r.1, [.attempt] ++ r.2 ++ [.startFailed])
 
 /-- client.py `stop()`: a task ends iff the code has a path for its site (`covered`). -/
-def doStop (st : State) : State × List Obs :=
+def doStop (c : Config) (st : State) : State × List Obs :=
   let keepB (k : Site) (b : Bool) : Bool := b && !covered k
   let keepN (k : Site) (n : Nat) : Nat := if covered k then 0 else n
   let stA := { st with wd := if covered .watchdog then .off else st.wd
@@ -503,7 +546,13 @@ def doStop (st : State) : State × List Obs :=
               wishlist := keepB .wishlist st1.wishlist
               searchTimers := keepN .searchTimer st1.searchTimers
               wishlistTimers := keepN .wishlistTimer st1.wishlistTimers
-              pp := if covered .potentialParent then [] else st1.pp },
+              pp := if covered .potentialParent then [] else st1.pp
+              sr := if covered .searchReply then [] else st1.sr
+              -- the children of a cancelled creator end with it iff the creator's cancel handler ends them
+              orphans := if covered .directConnect && covered .indirectConnect then []
+                         else st1.orphans ++ (if c.race then
+                           (if covered .potentialParent then st1.pp else []) ++
+                           (if covered .searchReply then st1.sr else []) else []) },
    r.2)
 
 def step (c : Config) (st : State) : Op → State × List Obs
@@ -528,16 +577,21 @@ def step (c : Config) (st : State) : Op → State × List Obs
       else (st, [.invalid])
   | .potentialParents =>
       if st.reader then
-        ({ st with pp := if c.searchForParent then ppTicks :: st.pp else st.pp }, [])
+        ({ st with pp := if c.searchForParent then connectTicks c :: st.pp else st.pp }, [])
+      else (st, [.invalid])
+  | .searchRequest =>
+      -- search/manager.py `_query_shares_and_reply`: a reply task only when the shares hold a match
+      if st.reader then
+        ({ st with sr := if c.files ≠ 0 then connectTicks c :: st.sr else st.sr }, [])
       else (st, [.invalid])
   | .loss r =>
       if st.conn = .connected ∧ r ≠ .connectFailed ∧ ((r = .eof ∨ r = .readError) → st.reader = true) then
         closeServer r st
       else (st, [.invalid])
-  | .tick => tickWd c { st with pp := agePP st.pp }
+  | .tick => tickWd c (ageAll st)
   | .setSrvUp b => ({ st with srvUp := b }, [])
   | .setSrvReply r => ({ st with srvReply := r }, [])
-  | .stop => if st.started ∧ st.stopped = false then doStop st else (st, [.invalid])
+  | .stop => if st.started ∧ st.stopped = false then doStop c st else (st, [.invalid])
 
 def run (c : Config) : State → List Op → State × List Obs
   | st, [] => (st, [])
@@ -548,15 +602,24 @@ def run (c : Config) : State → List Op → State × List Obs
 
 def init : State := {}
 
+/-- race children of the pending connects: the indirect attempt lives as long as the connect, the direct attempt
+    until its timeout -/
+def raceChildren (c : Config) (l : List Nat) : List Site :=
+  if c.race then
+    l.map (fun _ => Site.indirectConnect) ++
+    (l.filter (fun n => n > indirectTicks - directTicks)).map (fun _ => Site.directConnect)
+  else []
+
 /-- live library tasks, as sites with multiplicity -/
-def alive (st : State) : List Site :=
+def alive (c : Config) (st : State) : List Site :=
   (if st.wd = .off then [] else [.watchdog]) ++
   (if st.ping then [.ping] else []) ++ (if st.reader then [.reader] else []) ++
   (if st.userMgmt then [.userMgmt] else []) ++ (if st.transferMgmt then [.transferMgmt] else []) ++
   (if st.transferProgress then [.transferProgress] else []) ++ (if st.logConn then [.logConnections] else []) ++
   (if st.scan then [.sharesScan] else []) ++ (if st.wishlist then [.wishlist] else []) ++
   st.tracked.map (fun _ => .tracking) ++ List.replicate st.searchTimers .searchTimer ++
-  List.replicate st.wishlistTimers .wishlistTimer ++ st.pp.map (fun _ => .potentialParent)
+  List.replicate st.wishlistTimers .wishlistTimer ++ st.pp.map (fun _ => .potentialParent) ++
+  st.sr.map (fun _ => .searchReply) ++ raceChildren c (st.pp ++ st.sr ++ st.orphans)
 
 /-- open sockets of the library: the server connection and the listening ports -/
 def openSockets (st : State) : Nat := (if st.conn = .connected then 1 else 0) + st.listening
